@@ -105,6 +105,9 @@ func (w *rcWorld) runTask(t int, root context.Context) {
 	for i := range w.p.Tasks[t].Ops {
 		op := &w.p.Tasks[t].Ops[i]
 		simrt.Yield("task:op")
+		if w.e.frozen.Load() {
+			return // teardown: the freed tasks run in parallel, nothing is judged any more
+		}
 		switch op.Kind {
 		case "sleep":
 			time.Sleep(ms(op.MS))
